@@ -238,6 +238,11 @@ pub fn main(args: Args) {
         run2.eval();
         report(&run2, i, r);
     });
+    // Sanitizer arm (thorough tier): cached conversions re-used across engines under valgrind memcheck.
+    let vg_cases = args.budget("memcheck_cases", 0, 12);
+    if vg_cases > 0 && args.get("memcheck_child").is_none() {
+        crate::common::memcheck_arm(&run, &args, "C34", vg_cases, &[("cycles", "8".to_string())]);
+    }
     run.finish(&[("sequences_run", 15), ("cache_hits", 100), ("tests_compared", 300), ("steps_compared", 5000)]);
 }
 
